@@ -103,9 +103,12 @@ def _one_case(obs, rng, conv, kw, spec, mode, work):
             obs.cls('buffer-argument-omitted')
         edge_rows = None
         if conv == 'ugrid' and model.has_edges and 'face_edge' not in model.encoding['supplied']:
-            edge_rows = obs.call('edge_node_array', lambda: rows_of(ems.topology.edge_node_array))
-            if isinstance(edge_rows, Failed):
-                continue
+            if 'edge_node' in model.encoding['supplied']:
+                edge_rows = [list(r) for r in model.s_edges]       # the file's own edge numbering is the one that counts
+            else:
+                edge_rows = obs.call('edge_node_array', lambda: rows_of(ems.topology.edge_node_array))
+                if isinstance(edge_rows, Failed):
+                    continue
         selection = oracle.expected_selection(model, s0, b, edge_rows)
         cdir = tempfile.mkdtemp(prefix='w', dir=work)
         target_model = model
